@@ -236,7 +236,7 @@ LEFTOVER = [
     (r'\bstd\b', "std"),
     (r'\w\s*<\s*[A-Za-z_][\w:, ]*>\s*[({]', "template call"),
     (r'\[\s*[&=]?\s*\]\s*\(', "lambda"),
-    (r'[\w>]\s*(?<!&)&(?!&)\s*\w+\s*\)\s*(?:const\s*)?\{', "reference parameter"),
+    (r'^[^{]*[\w>]\s*(?<!&)&(?!&)\s*\w+\s*[,)]', "reference parameter"),
 ]
 
 
@@ -260,7 +260,7 @@ def check_leftovers(text, slice_name, allow=()):
     for pat, what in LEFTOVER:
         if what in allow:
             continue
-        m = re.search(pat, masked, flags=re.M)
+        m = re.search(pat, masked, flags=0 if what == "reference parameter" else re.M)
         if m:
             ctx = masked[max(0, m.start() - 30):m.end() + 30].replace('\n', ' ')
             raise ExtractError(f"{slice_name}: leftover C++ ({what}) near: ...{ctx}...")
